@@ -193,11 +193,13 @@ def main(argv=None):
     exit_code = 0
     unknown = 0
     known_hits = {}
+    known_sigs = {}
     for sig in sorted(total['viol']):
         entry = kf.get(sig)
         if entry is not None:
             pat = kf.pattern_of(sig)
             known_hits[pat] = known_hits.get(pat, 0) + total['viol_count'][sig]
+            known_sigs.setdefault(pat, []).append(sig)
             continue
         for w in total['viol'][sig][:1]:
             path = write_replay(prop, w)
@@ -241,6 +243,7 @@ def main(argv=None):
         'outcome_histogram_top': dict(sorted(total['outcomes'].items(), key=lambda kv: -kv[1])[:12]),
         'case_outcome_digest': roll.hexdigest(),
         'known_finding_case_counts': known_hits,
+        'known_finding_signatures': {k: v[:60] for k, v in known_sigs.items()},
         'unlisted_violation_signatures': unknown,
         'extra': total['extra'],
         'repo': target.repo_dir(),
